@@ -87,39 +87,45 @@ class TaskScheduler(object):
         init_num_tasks = len(self._tasks)
         self._tasks.append(root_task)
 
-        # Run the execution loop until the root_task is complete (it's either blocked on batch
-        # items waiting to be flushed, or computed).
-        while len(self._tasks) > init_num_tasks:
-            if len(self._tasks) > _debug_options.MAX_TASK_STACK_SIZE:
-                self.reset()
-                debug.dump(self)
-                raise RuntimeError(
-                    "Number of scheduled tasks exceeded maximum threshold."
-                )
+        try:
+            # Run the execution loop until the root_task is complete (it's either blocked on batch
+            # items waiting to be flushed, or computed).
+            while len(self._tasks) > init_num_tasks:
+                if len(self._tasks) > _debug_options.MAX_TASK_STACK_SIZE:
+                    self.reset()
+                    debug.dump(self)
+                    raise RuntimeError(
+                        "Number of scheduled tasks exceeded maximum threshold."
+                    )
 
-            # _tasks is a stack, so take the last one.
-            task = self._tasks[-1]
-            if _debug_options.DUMP_SCHEDULER_STATE:
-                self.try_time_based_dump()
+                # _tasks is a stack, so take the last one.
+                task = self._tasks[-1]
+                if _debug_options.DUMP_SCHEDULER_STATE:
+                    self.try_time_based_dump()
 
-            if task.is_computed():
-                self._tasks.pop()
-            elif isinstance(task, AsyncTask):
-                self._handle_async_task(task)
-            elif isinstance(task, batching.BatchItemBase):
-                # This can happen multiple times per batch item (if we run _execute and this batch
-                # item doesn't get flushed), but that's ok because self._batches is a set.
-                self._schedule_batch(task.batch)
-                self._tasks.pop()
-            else:
-                try:
-                    task._compute()
-                except Exception as error:
-                    # The failure belongs to the future, not to the scheduler: it is
-                    # delivered to the tasks awaiting it when they unwrap its value.
-                    if not task.is_computed():
-                        task.set_error(error)
-                self._tasks.pop()
+                if task.is_computed():
+                    self._tasks.pop()
+                elif isinstance(task, AsyncTask):
+                    self._handle_async_task(task)
+                elif isinstance(task, batching.BatchItemBase):
+                    # This can happen multiple times per batch item (if we run _execute and this batch
+                    # item doesn't get flushed), but that's ok because self._batches is a set.
+                    self._schedule_batch(task.batch)
+                    self._tasks.pop()
+                else:
+                    try:
+                        task._compute()
+                    except Exception as error:
+                        # The failure belongs to the future, not to the scheduler: it is
+                        # delivered to the tasks awaiting it when they unwrap its value.
+                        if not task.is_computed():
+                            task.set_error(error)
+                    self._tasks.pop()
+        except BaseException:
+            # Something escaped from a task, context or future: leave none of the tasks of
+            # this computation on the stack, so that the scheduler can be used again.
+            del self._tasks[init_num_tasks:]
+            raise
 
     def _schedule_batch(self, batch):
         if batch.is_flushed():
@@ -192,20 +198,21 @@ class TaskScheduler(object):
         old_task = self.active_task
         self.active_task = task
 
-        if _debug_options.DUMP_CONTINUE_TASK:
-            debug.write("@async: -> continuing %s" % debug.str(task))
-        if _debug_options.COLLECT_PERF_STATS:
-            start = utime()
-            task._continue()
-            task._total_time += utime() - start
-            if task.is_computed():
-                task.dump_perf_stats()
-        else:
-            task._continue()
-        if _debug_options.DUMP_CONTINUE_TASK:
-            debug.write("@async: <- continued %s" % debug.str(task))
-
-        self.active_task = old_task
+        try:
+            if _debug_options.DUMP_CONTINUE_TASK:
+                debug.write("@async: -> continuing %s" % debug.str(task))
+            if _debug_options.COLLECT_PERF_STATS:
+                start = utime()
+                task._continue()
+                task._total_time += utime() - start
+                if task.is_computed():
+                    task.dump_perf_stats()
+            else:
+                task._continue()
+            if _debug_options.DUMP_CONTINUE_TASK:
+                debug.write("@async: <- continued %s" % debug.str(task))
+        finally:
+            self.active_task = old_task
         # We get a new set of dependencies when we run _continue, so these haven't
         # been scheduled.
         task._dependencies_scheduled = False
